@@ -78,3 +78,8 @@ CASES = [
     for k in (1, 2)
 ]
 MIN_OBLIGATIONS = 10
+
+
+from pyvc.api import bounded_via_script
+bounded = bounded_via_script("C12")
+ASSUMPTIONS.append("bounded stand-in (labelled, not a proof): FASTA/FASTQ/GenBank/GFF3 round trips and edit histories of length <= 2 (3 thorough) on small files (bounded/C12.py)")
